@@ -833,7 +833,7 @@ func runC12(c0 *Ctx) {
 	}
 	if c0.Want("enum") {
 		fixed := c12Fixed()
-		deadline := time.Now().Add(time.Duration(c0.N(30, 420)) * time.Second)
+		deadline := time.Now().Add(time.Duration(c0.N(25, 420)) * time.Second)
 		bound, perScenario := c0.N(1, 2), c0.N(45, 6000)
 		everyStep := os.Getenv("C12_EVERY") != "0"
 		ParallelDo(len(fixed), c12Workers, func(i int) {
@@ -863,7 +863,7 @@ func runC12(c0 *Ctx) {
 	}
 	if c0.Want("rand") {
 		n := c0.N(150, 8000)
-		deadline := time.Now().Add(time.Duration(c0.N(25, 360)) * time.Second)
+		deadline := time.Now().Add(time.Duration(c0.N(20, 360)) * time.Second)
 		cases := make([]*c12Case, n)
 		for i := range cases {
 			cases[i] = c12Random(c0)
